@@ -84,6 +84,16 @@ XOnce == \A i, j \in 1..Len(arch) : i # j => arch[i].name # arch[j].name
 \* what the export yields is the complete archive the catalogue says (plus the directory entries)
 XComplete == phase # "export" =>
                {e \in Written : e.kind = "file"} = sc.entries
+\* manifest.json of a single image (DockerOf, what the Docker format remainder is imported by): Config and every
+\* position of the manifest's layer list name a file of the archive - a layer listed twice is written once
+\* (XOnce) but listed twice
+XDocker == phase # "export" /\ XSingle =>
+             LET d == sc.docker[1]
+                 names == {e.name : e \in Written}
+                 kids == Node(XRoot.n).kids
+             IN /\ d.cfg = BPath(kids[1].n) /\ d.cfg \in names
+                /\ Len(d.layers) = Len(kids) - 1
+                /\ \A i \in 1..Len(d.layers) : d.layers[i] = BPath(kids[i + 1].n) /\ d.layers[i] \in names
 \* parents are written before their children, so the importer needs a single pass over its own export
 XSinglePass == Terminal /\ ~ExpectedBad => pass = 1
 \* and the round trip satisfies the property
